@@ -60,10 +60,10 @@ _transcripts = {}
 def base_plan(arch, opts, timeout, net, faults, seed, knobs=None, keep=False):
     prof = copy.deepcopy(ARCH[arch])
     if arch == 'client':
-        argv = list(opts) + ['-c', '-p', '2222', '-t', str(timeout)]
+        argv = list(opts) + ['-c', '-p', '2222'] + (['-t', str(timeout)] if timeout else ['-t', '5'])
         plan = gen.client_plan(seed, argv, prof, port=2222, net=net, knobs=knobs, faults=faults)
     else:
-        argv = list(opts) + ['--skip-rate-test', '-t', str(timeout), 'srv.example:2222']
+        argv = list(opts) + ['--skip-rate-test'] + (['-t', str(timeout)] if timeout else []) + ['srv.example:2222']
         plan = gen.server_plan(seed, argv, prof, port=2222, net=net, knobs=knobs, faults=faults)
     plan['keep_tx'] = True
     if keep:
@@ -181,7 +181,7 @@ def cases(seed, tier):
         net = gen.rand_net(rng)
         if net['rtt_us'] > 60000:
             net['rtt_us'] = 60000
-        yield {'arch': arch, 'faults': faults, 'opts': rng.choice(TEXT_OPTS), 'timeout': rng.choice([1, 2, 5]), 'net': net,
+        yield {'arch': arch, 'faults': faults, 'opts': rng.choice(TEXT_OPTS), 'timeout': rng.choice([1, 2, 5, 0, 0]), 'net': net,
                'knobs': gen.rand_knobs(rng), 'pseed': rng.getrandbits(32)}
 
 
@@ -222,7 +222,7 @@ def _sig_site(rec):
 
 def judge(case, rec, out):
     arch = case['arch']
-    T = case['timeout']
+    T = case['timeout'] or 5      # 0 = no -t option: the documented default of 5 s applies
     fk = '+'.join(sorted(f['kind'] + ('/' + f['field'] if f.get('field') else '') for f in case['faults']))
     if rec['outcome'] != 'exit':
         out.append(viol('C09 %s: run did not terminate (%s)' % (arch, rec['outcome']), 'faults=%r\nstdout tail:\n%s' % (case['faults'], rec['stdout'][-800:])))
@@ -295,7 +295,7 @@ def run_case(case, ctx):
     faults = copy.deepcopy(case['faults'])
     for f in faults:
         if f['kind'] == 'delay' and 'frac' in f:
-            f['us'] = int(f['frac'] * case['timeout'] * 1_000_000)   # always inside one read timeout (two faults: < 2 x 0.45)
+            f['us'] = int(f['frac'] * (case['timeout'] or 5) * 1_000_000)   # always inside one read timeout (two faults: < 2 x 0.45)
     plan = base_plan(case['arch'], case['opts'], case['timeout'], case['net'], faults, case.get('pseed', 1), case.get('knobs'))
     plan['knobs'] = dict(plan.get('knobs') or {})
     plan['knobs'].setdefault('max_vtime_s', 1200)
